@@ -104,7 +104,7 @@ def preferred_model(ex, pref, viol, fallback, limit=400, budget_s=120):
 
 
 def decide(check, crate, oid, setup, post, replay=None, rb=None, unwind=8, enums=None, models=None, allow_panic=None,
-           max_cex=1, timeout_ms=30000, min_paths=1, note=None, known_predicates=None, budget_s=600, describe=None, merge=None, prefer=None, need_reach=None, unwound_is_violation=False):
+           max_cex=1, timeout_ms=30000, min_paths=1, note=None, known_predicates=None, budget_s=600, describe=None, merge=None, prefer=None, need_reach=None, unwound_is_violation=False, max_per_label=1000):
     """One obligation.
 
     setup(ex, st) -> (fname, args, inputs)         inputs: dict name -> z3 expr / python value (reported in counterexamples)
@@ -193,7 +193,8 @@ def decide(check, crate, oid, setup, post, replay=None, rb=None, unwind=8, enums
                     m = ex.solver.model()
                     if prefer is not None:
                         m = preferred_model(ex, prefer(inputs), z3.Not(p), m)
-                    cex.append(dict(label=label, inputs=cex_inputs(m)))
+                    if sum(1 for c_ in cex if c_["label"] == label) < max_per_label:
+                        cex.append(dict(label=label, inputs=cex_inputs(m)))
                 elif r == z3.unknown:
                     status = "inconclusive"
                     detail["unknown"] = label
